@@ -21,6 +21,7 @@ def run(chk, tier, only_rule=None):
     chk.units = ['csv', 'toon']
     r18_6(chk, facts)
     r18_7(chk, facts)
+    r18_8(chk, facts)
     if only_rule in (None, 'R18.3', 'R18.4'):
         toon_rules(chk, tier)
     if only_rule in ('R18.3', 'R18.4'): return
@@ -131,6 +132,29 @@ def r18_7(chk, facts):
             else: chk.fail('R18.7', site, fn['file'], inner[0].get('l'), 'state %s handles %s but not %s: with line_delimiter "\\r" or "\\r\\n" a record that ends in this state is not terminated' % (
                 '/'.join(names), 'LF' if 10 in chars else 'CR', 'CR' if 10 in chars else 'LF'), None, fn['q'])
     chk.require(n >= 5, 'R18.7: only %d states with a line terminator case found' % n)
+
+def r18_8(chk, facts):
+    """An option character that is unset (char_type()) must not match a NUL in the data."""
+    chk.rule('R18.8', 'CSV optional delimiters: every comparison of the current character with subfield_delimiter_ is reached only under '
+                      '`subfield_delimiter_ != char_type()` (the option is off by default; a NUL in a field must not split it)', floor=2)
+    pf = [f for f in U.functions(facts, cls='basic_csv_parser', name='parse_some') if f.get('body') is not None]
+    chk.require(pf, 'basic_csv_parser::parse_some not found')
+    fn = pf[0]; chk.analysed(fn)
+    g = C.CFG(fn['body'])
+    n = 0
+    for nd in g.rpo:
+        if nd.kind != 'cond': continue
+        c = G.comparison(nd.ast)
+        if not c or c[0] != '==' or 'subfield_delimiter_' not in (A.ref_name(c[1]), A.ref_name(c[2])) or 'curr_char' not in A.text(nd.ast): continue
+        n += 1
+        ok = False
+        for a, lab, e in g.guards(nd):
+            c2 = G.comparison(a)
+            if c2 and A.ref_name(c2[1]) == 'subfield_delimiter_' and ((c2[0] == '!=' and lab is True) or (c2[0] == '==' and lab is False)) and not A.ref_name(c2[2]): ok = True
+        site = U.site(fn, 'subfield delimiter test#%d' % n)
+        if ok: chk.ok('R18.8', site, {'line': nd.line})
+        else: chk.fail('R18.8', site, fn['file'], nd.line, 'parse_some: `curr_char == subfield_delimiter_` at line %s is not guarded by `subfield_delimiter_ != char_type()`: with the option unset a NUL character inside a field starts a sub-field array' % nd.line, None, fn['q'])
+    chk.require(n >= 2, 'R18.8: only %d subfield delimiter comparisons found' % n)
 
 def r18_6(chk, facts):
     """Type inference applies to unquoted fields only."""
@@ -396,3 +420,37 @@ def toon_rules(chk, tier):
             else:
                 chk.ok('R18.5', site, {'argument': A.text(a)[:40]} if k5 == 1 else None)
     chk.require(n5 >= 10, 'R18.5: only %d delimiter-taking calls found in encode_toon.hpp' % n5)
+
+    # ---- R18.9: every array header declares a non-default delimiter
+    chk.rule('R18.9', 'TOON array headers: every `[N]` header written by the encoder carries the delimiter marker when the delimiter in force is '
+                      'not the comma (`if (delimiter != \',\') push_back(delimiter)` between `[`+size and `]`); the reader splits the rows by the '
+                      'delimiter the header declares', floor=3)
+    n9 = 0; seen9 = set()
+    for fn in facts.functions:
+        if not fn['file'].endswith('encode_toon.hpp') or fn.get('body') is None or fn.get('dep') or (fn['file'], fn['l']) in seen9: continue
+        closes = []
+        g9 = None
+        for x in A.walk_no_lambda(fn['body']):
+            if x.get('k') in A.CALLS and A.callee_name(x) == 'push_back' and A.ref_name(x.get('obj')) == 'sink' and x.get('args') and A.const(x['args'][0]) == 0x5d: closes.append(x)
+        if not closes: continue
+        seen9.add((fn['file'], fn['l']))
+        chk.analysed(fn)
+        g9 = C.CFG(fn['body'])
+        marks = []
+        for nd in g9.rpo:
+            if nd.kind != 'cond': continue
+            c9 = G.comparison(nd.ast)
+            # `delimiter != ','` or `options.delimiter() != toon_delimiter_kind::comma`
+            if c9 and c9[0] in ('!=', '==') and 'delimiter' in A.text(c9[1]) and (A.const(c9[2]) == 0x2c or 'comma' in A.text(c9[2])):
+                te = [e for e in nd.succ if e.label is (c9[0] == '!=')]
+                if te and any(isinstance(m.ast, dict) and any(A.callee_name(cc) == 'push_back' and cc.get('args') and A.ref_name(cc['args'][0]) == 'delimiter' for cc in A.calls_in(m.ast)) for m in G.region_of_edge(g9, te[0])):
+                    marks.append(nd)
+        for i, x in enumerate(closes):
+            nd = g9.node_of(x)
+            n9 += 1
+            site = U.site(fn, 'array header close#%d' % (i + 1))
+            opens = [m for m in g9.rpo if m.kind == 'stmt' and isinstance(m.ast, dict) and any(A.callee_name(cc) == 'push_back' and cc.get('args') and A.const(cc['args'][0]) == 0x5b for cc in A.calls_in(m.ast)) and nd is not None and g9.dominates(m, nd)]
+            ok = nd is not None and any(g9.dominates(mk, nd) and any(g9.dominates(o, mk) for o in opens) for mk in marks)
+            if ok: chk.ok('R18.9', site, {'line': x.get('l')})
+            else: chk.fail('R18.9', site, fn['file'], x.get('l'), '%s: the array header closed at line %s does not declare the delimiter in force: rows written with "|" or a tab are split by the reader at commas' % (fn['n'], x.get('l')), None, fn['q'])
+    chk.require(n9 >= 3, 'R18.9: only %d array header writers found' % n9)
